@@ -150,7 +150,3 @@ func firstLines(s string, n int) string {
 	return strings.Join(ls, " | ")
 }
 
-func runCheck(repo, verif, prop, tier string, secs int, keep bool) int {
-	fmt.Fprintln(os.Stderr, "check: not yet implemented")
-	return 2
-}
